@@ -23,10 +23,11 @@ FAULT_KINDS = ["crash_prefix", "torn_write", "bit_rot", "extent", "adversarial_f
 
 
 class FaultCtx:
-    def __init__(self, base, others, readmap, magics, others_readmaps=None):
+    def __init__(self, base, others, readmap, magics, others_readmaps=None, objmap=None):
         self.base = base  # bytes of the intended file
         self.others = others  # list of bytes: other files that once lived on the medium
         self.others_rm1 = [[o for o, n in rm if n == 1] for rm in (others_readmaps or [])]
+        self.objmap = objmap or {}  # {object offset: reference slots taken before it} (exact, when available)
         self.readmap = readmap  # [(offset, size)] of the fault-free load of base
         self.magics = magics  # sorted list of known magic ints
         self.rm1 = [o for o, n in readmap if n == 1]
@@ -294,6 +295,52 @@ def f_header(rng, img, ctx):
 
 
 # 7 ---------------------------------------------------------------------- nesting bombs
+def _i32(v):
+    return struct.pack("<i", v)
+
+
+_SLOT_CODES = frozenset(b"ilIfgxysAazZtu)([<>{cC")
+
+
+def _refs_before(img, ctx, at):
+    """number of reference-table slots the fault-free parse has taken before offset `at` (estimate)"""
+    if at in ctx.objmap and img[:at] == ctx.base[:at]:
+        return ctx.objmap[at]
+    # only these type codes take a slot when flagged (None/True/False/Ellipsis/StopIteration/NULL/refs do not)
+    return sum(1 for o in ctx.rm1 if o < at and o < len(img) and (img[o] & 0x80) and (img[o] & 0x7F) in _SLOT_CODES)
+
+
+def _ref_bomb(rng, base_index, shape):
+    """Adversarial *reference* fields: objects that are small in the file but huge (DAG) or deep (chain) once the
+    3.4+ reference table is followed.  Returns bytes of one tuple object holding the levels and a trigger."""
+    if shape == "ref_dag":
+        n = rng.choice([34, 44, 60])
+        width = 2
+    else:
+        n = rng.choice([3000, 9000])  # 7 bytes a level: the deepest chain that fits the 64 KiB input bound
+        width = 1
+    parts = []
+    for k in range(n):
+        parts.append(bytes([ord(")") | 0x80, width]))
+        if k == 0:
+            parts.append(b"N" * width)
+        else:
+            parts.append((b"r" + _i32(base_index + k - 1)) * width)
+    last = b"r" + _i32(base_index + n - 1)
+    trigger = rng.choice(["set", "frozenset", "dict", "plain", "tuple_eq"])
+    if trigger == "set":
+        tail = b"<" + _i32(1) + last
+    elif trigger == "frozenset":
+        tail = b">" + _i32(1) + last
+    elif trigger == "dict":
+        tail = b"{" + last + b"T" + b"0"
+    elif trigger == "tuple_eq":
+        tail = b"<" + _i32(2) + last + b"r" + _i32(base_index + max(0, n - 2))
+    else:
+        tail = last
+    return b"(" + _i32(n + 1) + b"".join(parts) + tail, {"levels": n, "trigger": trigger}
+
+
 def f_nesting_bomb(rng, img, ctx):
     n = len(img)
     if n < 16:
@@ -301,7 +348,45 @@ def f_nesting_bomb(rng, img, ctx):
     pool = [o for o in ctx.rm1 if 8 <= o < n]
     at = rng.choice(pool) if pool else rng.between(8, n - 1)
     depth = rng.choice([8, 64, 600, 1100, 3000, 12000])
-    shape = rng.choice(["small_tuple", "tuple", "list", "dict", "set", "ref_tuple", "long_digits", "code"])
+    # reference bombs are rare on purpose: each DAG instance burns its whole CPU budget (twice: batch + isolation)
+    shape = rng.weighted([("small_tuple", 180), ("tuple", 180), ("list", 180), ("dict", 180), ("set", 180),
+                          ("ref_tuple", 180), ("long_digits", 180), ("code", 180), ("big_int", 120), ("ref_dag", 1),
+                          ("ref_chain", 5)])
+    extra = {}
+    if shape in ("ref_dag", "ref_chain"):
+        # exact indices when the bomb replaces the whole payload (first object after the header), estimated
+        # indices when it replaces an inner object
+        whole = rng.chance(1, 2)
+        hdr = 16 if n >= 16 and whole else None
+        if whole:
+            hl = rng.choice([8, 12, 16])
+            bomb, extra = _ref_bomb(rng, 0, shape)
+            out = img[:hl] + bomb
+            extra.update({"whole_payload": True, "header_len": hl})
+            d = {"kind": "nesting_bomb", "at": hl, "depth": extra["levels"], "shape": shape, "keep_tail": False}
+            d.update(extra)
+            if len(out) > 64 * 1024:
+                d["oversize"] = True
+            return out, d
+        starts = sorted(o for o in ctx.objmap if 8 <= o < n)
+        if starts and img[:starts[-1]] == ctx.base[:starts[-1]]:
+            at = rng.choice(starts)
+        bomb, extra = _ref_bomb(rng, _refs_before(img, ctx, at), shape)
+        how = rng.choice(["insert", "cut", "replace_object"])
+        if how == "insert":
+            out = img[:at] + bomb + img[at:]
+        elif how == "cut":
+            out = img[:at] + bomb
+        else:
+            # the bomb takes the place of exactly one object: the rest of the file still parses
+            later = [o for o in starts if o > at]
+            out = img[:at] + bomb + (img[rng.choice(later[:6]):] if later else b"")
+        extra["how"] = how
+        d = {"kind": "nesting_bomb", "at": at, "depth": extra["levels"], "shape": shape, "keep_tail": True}
+        d.update(extra)
+        if len(out) > 64 * 1024:
+            d["oversize"] = True
+        return out, d
     if shape == "small_tuple":
         bomb = b")\x01" * depth
     elif shape == "tuple":
@@ -316,6 +401,12 @@ def f_nesting_bomb(rng, img, ctx):
         bomb = b"\xa9\x01" * depth
     elif shape == "long_digits":
         bomb = b"l" + struct.pack("<i", rng.choice([(1 << 31) - 1, -(1 << 31), 1 << 20, 40000])) + b"\xff\x7f" * min(depth, 4000)
+    elif shape == "big_int":
+        # a well-formed arbitrary-precision int of 15 000 .. 60 000 bits (> 4300 decimal digits: str() of it
+        # raises ValueError on 3.11+ hosts), possibly negative, possibly flagged as a reference
+        cnt = rng.choice([1000, 2000, 4000])
+        code = ord("l") | (0x80 if rng.chance(1, 3) else 0)
+        bomb = bytes([code]) + struct.pack("<i", cnt if rng.chance(3, 4) else -cnt) + b"\xff\x7f" * cnt
     else:
         bomb = (b"c" + b"\x00" * 16 + b"s\x00\x00\x00\x00" + b")\x01") * min(depth, 2000)
     bomb = bomb[: core_max_insert(n)]
@@ -387,9 +478,9 @@ def apply_fault_sequence(rng, ctx, enabled, max_faults):
         if res is None:
             continue
         img, d = res
-        if len(img) > 64 * 1024:
-            img = img[: 64 * 1024]
         fired.append(d)
+        if len(img) > 64 * 1024 and not any(f.get("oversize") for f in fired):
+            img = img[: 64 * 1024]
     return img, fired
 
 
